@@ -33,15 +33,15 @@ CLAIMS = {
     "C11": ("Callback contract asserted with a solver-chosen mix of buffer/NULL returns over all received sets of the grid.",
             "4.C11", "as C01"),
     "C12": ("A session's observations are compared between a run alone and a run interleaved with another session and havocked process globals, for all data and all values of the globals.",
-            "4.C12", "same thread only; interleaving points concrete"),
+            "4.C12", "same thread only; two interleaving modes (B lives across A's calls / whole lives of B inside every window of A); interleaving points are the boundaries of API calls"),
     "C13": ("Each kernel executed on buffers whose every byte, and the field constant, are solver variables, per concrete (size, operand count, offset); CBMC's bounds checks give 'no byte beyond size'.",
-            "4.C13", "sizes within the grid; GF(2^8) kernels on a small size grid (64K-table reads); cbmc simplifier defect avoided by keeping the constant symbolic"),
+            "4.C13", "sizes within the grid; GF(2^8) kernels: exact queries against the real 64K table on a small size grid, sizes 0..65 (0..96 thorough) through a row-pointer abstraction of the table whose pass implies the exact pass (failures are decided by the exact query); cbmc simplifier defect avoided by keeping the constant symbolic"),
     "C14": ("All table indices symbolic: one query per table set decides every entry against shift-xor field arithmetic: the whole quantifier fits in the bound.",
             "4.C14", "codec-1 tables: native dump of the current of_rs_init() in quick, generated inside CBMC in thorough"),
     "C15": ("Encoder and decoder answers compared with the algebraic criterion on the reference matrix; last symbol all-zero for all data when true.",
             "4.C15", "configurations and seeds enumerated"),
-    "C16": ("2D-parity matrix structure compared with the product code for every accepted (k,r); encoder equations for all data; decoder findings recorded.",
-            "4.C16", "see known findings"),
+    "C16": ("2D-parity matrix structure compared with the product code for every accepted (k,r); encoder equations for all data; decoder through both submission APIs: never a wrong symbol, complete exactly when the rank oracle says so.",
+            "4.C16", "k <= 16, n <= 24; all received sets only for n <= 7 (9 thorough), 0/1/2-loss sets beyond; the three 2D defects found are repaired (fix: commits, known_findings.json fixed entries)"),
     "C17": ("Concrete operation sequences on small matrices executed symbolically with all memory checks and a bit-matrix model; exhaustive within the stated scope, zero free inputs.",
             "4.C17", "reduced form: enumeration of sequences, the solver decides the VCs of each path"),
     "C18": ("Matrix bits, operation arguments and right-hand sides symbolic for concrete small dimensions; model = plain bit matrix / bit-mask elimination.",
